@@ -172,11 +172,11 @@ def PendInv (fs : FlagSet) (inArgs : List Str) (fl : Option Found) : Prop :=
 theorem consumes_after_arg (fd : Found) (arg : Str) : consumes { fd with args := fd.args ++ [arg] } = false := by
   simp [consumes]
 
-theorem classify_pend {t : TTree} {cs : TCmd} (h : Single t cs) (fs : FlagSet) (arg : Str) (st st' : LoopState)
-    (hc : classify t 0 cs fs arg st = .next st') : PendInv fs st'.inArgs st'.inFlag := by
+theorem classify_pend {t : TTree} {c : Nat} {cs : TCmd} {arg : Str} (h : childNamed t c arg = none) (fs : FlagSet) (st st' : LoopState)
+    (hc : classify t c cs fs arg st = .next st') : PendInv fs st'.inArgs st'.inFlag := by
   obtain ⟨inArgs, nPos, inFlag⟩ := st
   unfold classify at hc
-  simp only [childNamed_single h] at hc
+  simp only [h] at hc
   -- the part without a waiting flag
   have noFlag : ∀ fl : Option Found, (∀ fd, fl = some fd → consumes fd = false) →
       (if (arg == "--".toList) = true then WordClass.dash
@@ -211,36 +211,37 @@ theorem classify_pend {t : TTree} {cs : TCmd} (h : Single t cs) (fs : FlagSet) (
     · rw [if_neg hcon] at hc
       exact noFlag (some fd) (fun fd' e => by cases e; simpa using hcon) hc
 
-theorem loop_pend {t : TTree} {cs : TCmd} (h : Single t cs) (fs : FlagSet) :
-    ∀ (ws : List Str) (st st' : LoopState) (b : Bool),
-      PendInv fs st.inArgs st.inFlag → loop t 0 cs fs ws st = .done st' b →
+theorem loop_pend {t : TTree} {c : Nat} {cs : TCmd} (fs : FlagSet) :
+    ∀ (ws : List Str) (st st' : LoopState) (b : Bool), NoChild t c ws →
+      PendInv fs st.inArgs st.inFlag → loop t c cs fs ws st = .done st' b →
       b = false → PendInv fs st'.inArgs st'.inFlag := by
   intro ws
   induction ws with
   | nil =>
-    intro st st' b hp hl _
+    intro st st' b _ hp hl _
     simp only [loop, LoopOut.done.injEq] at hl
     rw [← hl.1]; exact hp
   | cons arg rest ih =>
-    intro st st' b hp hl hb
+    intro st st' b hnc hp hl hb
+    have harg := hnc arg (List.mem_cons_self ..)
     rw [loop] at hl
-    rcases classify_single h fs arg st with hd | ⟨st1, hn, _⟩
+    rcases classify_single (cs := cs) harg fs st with hd | ⟨st1, hn, _⟩
     · simp only [hd, LoopOut.done.injEq] at hl
       rw [← hl.2] at hb; cases hb
     · simp only [hn] at hl
-      exact ih st1 st' b (classify_pend h fs arg st st1 hn) hl hb
+      exact ih st1 st' b (fun w hw => hnc w (List.mem_cons_of_mem _ hw)) (classify_pend harg fs st st1 hn) hl hb
 
 /-- at the dash nothing is waited for (the dash would have been taken as the value) -/
-theorem loop_dash_nopend {t : TTree} {cs : TCmd} (h : Single t cs) (fs : FlagSet) :
+theorem loop_dash_nopend {t : TTree} {c : Nat} {cs : TCmd} (fs : FlagSet) :
     ∀ (ws : List Str) (st st' : LoopState),
-      loop t 0 cs fs ws st = .done st' true → ∀ fd, st'.inFlag = some fd → consumes fd = false := by
+      loop t c cs fs ws st = .done st' true → ∀ fd, st'.inFlag = some fd → consumes fd = false := by
   intro ws
   induction ws with
   | nil => intro st st' hl; simp [loop] at hl
   | cons arg rest ih =>
     intro st st' hl fd hfd
     rw [loop] at hl
-    cases hcl : classify t 0 cs fs arg st with
+    cases hcl : classify t c cs fs arg st with
     | next st1 => simp only [hcl] at hl; exact ih st1 st' hl fd hfd
     | child k => simp [hcl] at hl
     | dash =>
@@ -386,20 +387,20 @@ theorem lookupArg_cases {fs : FlagSet} {a : Str} {fd : Found} (h : lookupArg fs 
         · intro body e; exact hx (by cases e; rfl)
         · intro c rest e; exact hx (by cases e; rfl)
 
-/-- **C01 for the flag-value slot (single interspersed command).** If the traverse model completes
+/-- **C01 for the flag-value slot (any interspersed command, as long as the earlier words stay within it).** If the traverse model completes
     the value of flag `name`, then - given that the parser accepts the line up to the flag word -
     any word `v` the flag's type accepts, typed there, is accepted by the program's parser and is
     assigned to that very flag (as the last assignment of the line). -/
-theorem C01_flag_value_lands {t : TTree} {cs : TCmd} (h : Single t cs) (hi : cs.interspersed = true)
-    (hn : NamesOk (flagsAt t (t.size + 1) 0)) (fuel : Nat) (ws : List Str) (w name : Str)
-    (hs : traverseSlot t (fuel + 1) 0 ws w = .flagValue 0 name) :
-    ∀ v, (∀ f ∈ flagsAt t (t.size + 1) 0, f.name = name → Pflag.valueOk f v = true) →
-      ∃ p', Pflag.parse (flagsAt t (t.size + 1) 0) true (ws ++ [v]) = .ok p' ∧ p'.sets.getLast? = some (name, v) := by
+theorem C01_flag_value_lands {t : TTree} {c : Nat} {cs : TCmd} (h : Stay t c cs) (hi : cs.interspersed = true)
+    (hn : NamesOk (flagsAt t (t.size + 1) c)) (fuel : Nat) (ws : List Str) (hnc : NoChild t c ws) (w name : Str)
+    (hs : traverseSlot t (fuel + 1) c ws w = .flagValue c name) :
+    ∀ v, (∀ f ∈ flagsAt t (t.size + 1) c, f.name = name → Pflag.valueOk f v = true) →
+      ∃ p', Pflag.parse (flagsAt t (t.size + 1) c) true (ws ++ [v]) = .ok p' ∧ p'.sets.getLast? = some (name, v) := by
   intro v hv
-  have ht0 : t[0]? = some cs := by rw [h.tree]; rfl
+  have ht0 : t[c]? = some cs := h.cmd
   unfold traverseSlot at hs
   simp only [ht0, h.name1, h.name2, Bool.false_eq_true, Bool.or_self, if_false] at hs
-  obtain ⟨st, b, hl, hin⟩ := loop_single h ((flagsAt t (t.size + 1) 0).map (·.toDef)) ws {}
+  obtain ⟨st, b, hl, hin⟩ := loop_single (cs := cs) ((flagsAt t (t.size + 1) c).map (·.toDef)) ws {} hnc
   simp only [hl, h.parses, Bool.false_eq_true, if_false, hi] at hs
   have hin' : st.inArgs = ws := by simpa using hin
   -- only a waiting flag gives this slot
@@ -420,7 +421,7 @@ theorem C01_flag_value_lands {t : TTree} {cs : TCmd} (h : Single t cs) (hi : cs.
     · have hargs : fd.args.isEmpty = true := by
         simp only [consumes, Bool.and_eq_true] at hcon; exact hcon.2
       simp only [hargs, hcon, Bool.and_self, if_true, hin'] at hs
-      cases hp : Pflag.parse (flagsAt t (t.size + 1) 0) true ws.dropLast with
+      cases hp : Pflag.parse (flagsAt t (t.size + 1) c) true ws.dropLast with
       | error e => simp [hp] at hs
       | ok p =>
         simp only [hp] at hs
@@ -433,9 +434,9 @@ theorem C01_flag_value_lands {t : TTree} {cs : TCmd} (h : Single t cs) (hi : cs.
             cases b with
             | false => rfl
             | true =>
-              have := loop_dash_nopend h _ ws {} st hl fd hfl
+              have := loop_dash_nopend _ ws {} st hl fd hfl
               rw [this] at hcon; cases hcon
-          have hpend := loop_pend h _ ws {} st b (by intro fd' e; cases e) hl hb fd hfl hcon
+          have hpend := loop_pend _ ws {} st b hnc (by intro fd' e; cases e) hl hb fd hfl hcon
           obtain ⟨ws0, a, hws, hla, hnd⟩ := hpend
           rw [hin'] at hws
           have hdl : ws.dropLast = ws0 := by rw [hws]; simp
@@ -475,9 +476,9 @@ theorem C01_flag_value_lands {t : TTree} {cs : TCmd} (h : Single t cs) (hi : cs.
 /-- non-vacuity: the hypotheses are met by an ordinary command, and the series `-vn` waits for `name` -/
 example :
     let cs : TCmd := { name := "prog".toList, flags := [({ name := "name".toList, short := some 'n' }, false), ({ name := "verbose".toList, short := some 'v', kind := .bool }, false)] }
-    Single #[cs] cs ∧ NamesOk (flagsAt #[cs] 2 0) ∧
+    Stay #[cs] 0 cs ∧ NoChild #[cs] 0 ["x".toList, "-vn".toList] ∧ NamesOk (flagsAt #[cs] 2 0) ∧
     traverseSlot #[cs] 3 0 ["x".toList, "-vn".toList] "val".toList = .flagValue 0 "name".toList := by
-  refine ⟨⟨rfl, rfl, by decide, by decide, rfl⟩, ?_, by decide⟩
+  refine ⟨⟨rfl, by decide, by decide, rfl⟩, by intro w hw; simp at hw; rcases hw with rfl | rfl <;> decide, ?_, by decide⟩
   intro f hf
   have : f = { name := "name".toList, short := some 'n' } ∨ f = { name := "verbose".toList, short := some 'v', kind := .bool } := by
     simpa [flagsAt, flagsAt.inherit] using hf
